@@ -193,6 +193,9 @@ def run_c04(rep, tier, seed):
         rep.cov["traces_validated_against_impl"] += 1
         if si < 2:
             rep.sample({"schedule": name, "script": lines, "answers": ans})
+    # 1b. the LTS of the theorems against the real store, schedule by schedule (tools/p_lts.py)
+    import p_lts
+    p_lts.run_lts_tie(rep, tier, seed, viol)
     # 2. free-running stress with linearizability check
     rng = random.Random(seed * 1000 + 4)
     nruns = 12 if tier == "quick" else 120
@@ -239,6 +242,9 @@ def run_c04(rep, tier, seed):
     rep.cov["rule"] = ("(1) %d hand-written forced schedules using the crate's schedule points and a pause before a chosen write(2) (the two windows named in the property, merge/reader and writer/reader windows); "
                        "(2) free-running stress: 1-3 writers (put with unique values of 8..48 bytes or 8191/8192/9000/20000 bytes, del), 1-4 readers, one merging thread, max_file_size in {0,60,300,9000,30000}, pool 1/2/4, cache 0/1/256; "
                        "the timestamped history is checked per key for linearizability (exact memoised search), values for tearing, results for panics/errors, the run for hangs, the pool for leaked readers; "
+                       "(3) correspondence with the LTS the theorems are about (`CStore.step`): model-guided schedules over 3 file sizes x 2 pool sizes x 6 initial stores x {get, put (3 bytes / 9000 bytes = two write(2) calls), del, merge} parked at each of its schedule points "
+                       "(optionally a second, later one) while a second operation runs; for every move the model's prediction (parked at the point / finished with result / blocked) is compared with the real thread, and at the end the index, the active file id, "
+                       "the non-empty data files and the pooled readers are compared; "
                        "non-trivial = distinct schedule or stress configuration") % len(SCHEDULES)
 
 
@@ -275,13 +281,13 @@ def run_c17(rep, tier, seed):
         else:
             lines += ["sleep 60"]
         i_drop = len(lines)
-        lines += ["drop"]
+        lines += ["drop", "whocalls"]
         if special == "park-merge":
             lines += [f"t.release {BG}"]
         i_ops = len(lines)
         lines += ["put 61 3434", "get 61", "del 61", "merge", "sync"]
         i_wait = len(lines)
-        lines += [f"waitbg 0 {deadline}", "sleep 80", "tdrain", "close", "reopen", "get 61", "get 62", "close"]
+        lines += [f"waitbg 0 {deadline}", "sleep 80", "tdrain", "whocalls", "close", "reopen", "get 61", "get 62", "close"]
         # `trace-settle` / `calls-after-drop` are evaluated from the per-line traces; keep placeholders out of the script
         script = [l for l in lines if l not in ("trace-settle", "calls-after-drop")]
         shutil.rmtree(root, ignore_errors=True)
@@ -298,14 +304,18 @@ def run_c17(rep, tier, seed):
         if died is not None:
             bad = (len(ans), "-", f"harness died / hung: {died.why}")
         else:
-            idx = {l: i for i, l in enumerate(script)}
+            # Who may still touch the directory after the drop: nobody on behalf of the rejected operations (the
+            # harness thread), and the store's own worker only to finish the one merge / sync it had already begun
+            # when the object was dropped. Where the worker was parked in front of its merge call (park-merge) it
+            # had begun nothing, so there nothing at all may happen. Calls are attributed by the thread that made
+            # them (`whocalls`: store's background threads vs everybody else, counted since the drop).
+            i_who = [k for k, l in enumerate(script) if l == "whocalls"][1]
+            who = dict(t.split("=") for t in ans[i_who].split())
+            fg_calls, bg_calls = int(who.get("fg", 0)), int(who.get("bg", 0))
             for l in ["put 61 3434", "get 61", "del 61", "sync"]:
                 i = script.index(l, i_drop)
                 if not strip(ans[i]).startswith("err closed"):
                     bad = (i, "err closed", ans[i])
-                    break
-                if calls_of(ans[i]):
-                    bad = (i, "no file-system call", ans[i])
                     break
             i = script.index("merge", i_drop)
             if not bad and not ans[i].startswith("err closed"):
@@ -314,8 +324,8 @@ def run_c17(rep, tier, seed):
             i_close = script.index("close", i_drop)
             if not bad:
                 for j in range(i_drop + 1, i_close):
-                    if calls_of(ans[j]):
-                        bad = (j, "no change on disk after the store object was dropped", ans[j])
+                    if calls_of(ans[j]) and (fg_calls > 0 or special == "park-merge"):
+                        bad = (j, "no change on disk after the store object was dropped" + (f" ({fg_calls} call(s) were made by the calling thread, {bg_calls} by the store's worker)" if special != "park-merge" else " (the worker had not begun its merge)"), ans[j])
                         break
             i = next(k for k, l in enumerate(script) if l.startswith("waitbg"))
             if not bad and not ans[i].endswith(" ok"):
